@@ -28,7 +28,7 @@ RULE = (
 )
 ASSUMPTIONS = [
     "names used under a comparison have a single provider (how several providers combine in a value position is not documented)",
-    "coroutine methods are not used as operands of compound expressions (finding K1); string literals avoid the operator spellings v ^ ! (finding K4)",
+    "coroutine methods are not used as operands of compound expressions (finding K1)",
     "the same expression text is never used both as cond and unless of one transition (finding K8)",
     "Python's own eval() of the canonical rendering is the trusted oracle",
 ]
@@ -47,7 +47,7 @@ def atom(names, consts):
 
 
 NUM_CONSTS = ["0", "1", "2", "10", "1.5", "0.0", "True", "False", "3"]
-ANY_CONSTS = NUM_CONSTS + ["None", "'s'", '"t"', "''", "True", "False"]
+ANY_CONSTS = NUM_CONSTS + ["None", "'s'", '"t"', "''", "True", "False", "'a v b'", '"x!"', "'^'", "'not'", "' and '", "'1'"]
 
 
 def num_expr():
@@ -73,8 +73,19 @@ def cmp_expr():
     return st.one_of(simple, simple, chained)
 
 
+STR_NAMES = ["label", "sv"]
+STR_CONSTS = ["'a v b'", '"x!"', "'^'", "'s'", "''", "'1'", "'not a'", '"a ^ b"']
+STR_VALUES = ["a v b", "x!", "^", "s", "", "1", "not a", "a ^ b", "a  or  b"]
+
+
+def str_cmp():
+    """(in)equality between string-valued names and string literals that contain the operator spellings"""
+    side = st.one_of(st.tuples(st.just("name"), st.sampled_from(STR_NAMES)), st.tuples(st.just("const"), st.sampled_from(STR_CONSTS)))
+    return st.tuples(st.just("cmp"), st.tuples(st.tuples(st.just("name"), st.sampled_from(STR_NAMES)), side).map(list), st.lists(st.sampled_from(["==", "!="]), min_size=1, max_size=1))
+
+
 def bool_expr():
-    base = st.one_of(atom(BOOL_NAMES + NUM_NAMES, ANY_CONSTS), atom(BOOL_NAMES, ANY_CONSTS), cmp_expr())
+    base = st.one_of(atom(BOOL_NAMES + NUM_NAMES, ANY_CONSTS), atom(BOOL_NAMES, ANY_CONSTS), cmp_expr(), cmp_expr(), str_cmp())
     return st.recursive(
         base,
         lambda ch: st.one_of(
@@ -406,7 +417,7 @@ def run_negative(case):
         try:
             body["go"] = body["s1"].to(body["s2"], **{case.get("slot", "cond"): expr})
             body["back"] = body["s2"].to(body["s1"])
-            for n in BOOL_NAMES + NUM_NAMES:
+            for n in BOOL_NAMES + NUM_NAMES + STR_NAMES:
                 body[n] = 1
             cls = types.new_class(f"N{next(UID)}", (StateMachine,), {}, lambda d: d.update(body))
         except InvalidDefinition:
@@ -422,7 +433,7 @@ def run_negative(case):
         if case.get("lenient"):
             # not in the documented grammar, but harmless if it evaluates as Python does
             try:
-                want = bool(eval(case["lenient"], {"__builtins__": {}}, {n: 1 for n in BOOL_NAMES + NUM_NAMES}))
+                want = bool(eval(case["lenient"], {"__builtins__": {}}, {n: 1 for n in BOOL_NAMES + NUM_NAMES + STR_NAMES}))
                 sm.send("go")
                 got = sm.current_state.id == "s2"
             except Exception as e:
@@ -464,7 +475,7 @@ def positive(draw, tier):
     seen, keep_c, keep_u = set(), [], []
     for lst, keep in ((cond, keep_c), (unless, keep_u)):
         for e in lst:
-            key = e["py"].replace("(", "").replace(")", "").replace("'", "").replace('"', "")
+            key = e["py"].replace("(", "").replace(")", "")
             if key not in seen:
                 seen.add(key)
                 keep.append(e)
@@ -486,7 +497,7 @@ def positive(draw, tier):
         env = {}
         for n, provs in providers.items():
             for p in provs:
-                env[f"{n}@{p}"] = draw(st.sampled_from(NUM_VALUES if (used[n] or n in NUM_NAMES) else ANY_VALUES))
+                env[f"{n}@{p}"] = draw(st.sampled_from(STR_VALUES if n in STR_NAMES else NUM_VALUES if (used[n] or n in NUM_NAMES) else ANY_VALUES))
         vals.append(env)
     return {"kind": "positive", "cond": cond, "unless": unless, "providers": providers, "kinds": kinds, "valuations": vals,
             "decl": draw(st.sampled_from(["to", "to", "from", "any"]))}
